@@ -13,6 +13,8 @@ pub struct Fl {
     pub s: bool,
     pub u: bool,
     pub v: bool,
+    /// spelling of class characters: 0 canonical, 1 \u escapes, 2 \x escapes
+    pub sp: u8,
 }
 
 impl Fl {
@@ -24,6 +26,7 @@ impl Fl {
             s: g("s"),
             u: g("u"),
             v: g("v"),
+            sp: 0,
         }
     }
     pub fn to_regress(self, no_opt: bool) -> regress::Flags {
@@ -74,6 +77,24 @@ fn render_char(out: &mut Vec<u32>, c: u32) {
 }
 
 fn render_class_char(out: &mut Vec<u32>, c: u32, fl: Fl) {
+    // alternative spellings of the same character
+    if fl.sp == 1 {
+        if fl.u || fl.v {
+            push_str(out, &format!("\\u{{{:X}}}", c));
+            return;
+        } else if c <= 0xFFFF {
+            push_str(out, &format!("\\u{:04X}", c));
+            return;
+        }
+    } else if fl.sp == 2 {
+        if c <= 0xFF {
+            push_str(out, &format!("\\x{:02x}", c));
+            return;
+        } else if c <= 0xFFFF {
+            push_str(out, &format!("\\u{:04x}", c));
+            return;
+        }
+    }
     if let Some(ch) = char::from_u32(c) {
         let needs = if fl.v {
             "()[]{}/-\\|&!#%,:;<=>@`~^$*+.?".contains(ch)
@@ -94,6 +115,90 @@ fn render_class_char(out: &mut Vec<u32>, c: u32, fl: Fl) {
         }
     }
     out.push(c);
+}
+
+fn render_prop(out: &mut Vec<u32>, n: &Value) {
+    push_str(out, if n["neg"].as_bool().unwrap() { "\\P{" } else { "\\p{" });
+    push_str(out, n["name"].as_str().unwrap());
+    push_str(out, "}");
+}
+
+/// A class-set expression (spec/ClassSet.tla). `top`: directly inside the brackets of a class,
+/// where a union, an intersection or a subtraction may be written without nesting.
+fn render_set(out: &mut Vec<u32>, x: &Value, fl: Fl, top: bool) {
+    let k = x["k"].as_str().unwrap();
+    let nested = |out: &mut Vec<u32>, y: &Value| {
+        // operands of && and -- (and operators inside a union) must be ClassSetOperands
+        match y["k"].as_str().unwrap() {
+            "r" | "u" | "i" | "s" => {
+                push_str(out, "[");
+                render_set(out, y, fl, true);
+                push_str(out, "]");
+            }
+            _ => render_set(out, y, fl, false),
+        }
+    };
+    match k {
+        "c" => render_class_char(out, x["c"].as_u64().unwrap() as u32, fl),
+        "r" => {
+            render_class_char(out, x["lo"].as_u64().unwrap() as u32, fl);
+            push_str(out, "-");
+            render_class_char(out, x["hi"].as_u64().unwrap() as u32, fl);
+        }
+        "e" => {
+            push_str(out, "\\");
+            push_str(out, x["e"].as_str().unwrap());
+        }
+        "p" => render_prop(out, x),
+        "q" => {
+            push_str(out, "\\q{");
+            for (i, s) in x["strs"].as_array().unwrap().iter().enumerate() {
+                if i > 0 {
+                    push_str(out, "|");
+                }
+                for c in s.as_array().unwrap() {
+                    render_class_char(out, c.as_u64().unwrap() as u32, fl);
+                }
+            }
+            push_str(out, "}");
+        }
+        "u" | "i" | "s" => {
+            if !top {
+                push_str(out, "[");
+            }
+            let sep = match k {
+                "u" => "",
+                "i" => "&&",
+                _ => "--",
+            };
+            for (i, y) in x["xs"].as_array().unwrap().iter().enumerate() {
+                if i > 0 {
+                    push_str(out, sep);
+                }
+                if k == "u" {
+                    // a range may stand directly in a union
+                    match y["k"].as_str().unwrap() {
+                        "u" | "i" | "s" => nested(out, y),
+                        _ => render_set(out, y, fl, false),
+                    }
+                } else {
+                    nested(out, y);
+                }
+            }
+            if !top {
+                push_str(out, "]");
+            }
+        }
+        "n" => {
+            push_str(out, "[");
+            if x["neg"].as_bool().unwrap() {
+                push_str(out, "^");
+            }
+            render_set(out, &x["x"], fl, true);
+            push_str(out, "]");
+        }
+        other => panic!("unknown class set expression {}", other),
+    }
 }
 
 fn quant_str(min: i64, max: i64, greedy: bool) -> String {
@@ -124,7 +229,7 @@ fn name_of(n: &Value) -> Vec<u32> {
 
 /// Can a quantifier be appended directly to the rendering of this node?
 fn is_atom(n: &Value) -> bool {
-    matches!(t(n), "chr" | "dot" | "esc" | "cls" | "grp" | "ncg" | "mod" | "bref" | "kref")
+    matches!(t(n), "chr" | "dot" | "esc" | "cls" | "prop" | "vcls" | "grp" | "ncg" | "mod" | "bref" | "kref")
 }
 
 fn render_in_cat(out: &mut Vec<u32>, n: &Value, fl: Fl) {
@@ -163,9 +268,19 @@ pub fn render(out: &mut Vec<u32>, n: &Value, fl: Fl) {
                         push_str(out, "\\");
                         push_str(out, it["e"].as_str().unwrap());
                     }
+                    "p" => render_prop(out, it),
                     k => panic!("unknown class item {}", k),
                 }
             }
+            push_str(out, "]");
+        }
+        "prop" => render_prop(out, n),
+        "vcls" => {
+            push_str(out, "[");
+            if n["neg"].as_bool().unwrap() {
+                push_str(out, "^");
+            }
+            render_set(out, &n["x"], fl, true);
             push_str(out, "]");
         }
         "cat" => {
